@@ -103,6 +103,10 @@ class FluentWorklist(BaseWorklist):
 
         if np.any(volumes < 0):
             raise ValueError(f"Volumes must be positive or zero. They were {volumes}")
+        for labware, wells in ((source, source_wells), (destination, destination_wells)):
+            unknown = [str(w) for w in wells if w not in labware.indices]
+            if unknown:
+                raise KeyError(f'The wells {unknown} do not exist in "{labware.name}".')
 
         # automatic partitioning
         partition_by = optimize_partition_by(source, destination, partition_by, label)
